@@ -52,6 +52,9 @@ namespace igris
 
         static_vector &operator=(const static_vector &other)
         {
+            if (this == &other)
+                return *this;
+            clear();
             m_size = other.m_size;
             for (std::size_t pos = 0; pos < m_size; ++pos)
             {
@@ -62,6 +65,9 @@ namespace igris
 
         static_vector &operator=(static_vector &&other)
         {
+            if (this == &other)
+                return *this;
+            clear();
             m_size = other.m_size;
             for (std::size_t pos = 0; pos < m_size; ++pos)
             {
@@ -207,11 +213,20 @@ namespace igris
                 new (&_data[i]) T{};
             }
 
+            for (size_t i = newsize; i < m_size; ++i)
+            {
+                reinterpret_cast<T *>(&_data[i])->~T();
+            }
+
             m_size = newsize;
         }
 
         void clear()
         {
+            for (std::size_t pos = 0; pos < m_size; ++pos)
+            {
+                reinterpret_cast<T *>(&_data[pos])->~T();
+            }
             m_size = 0;
         }
     };
